@@ -3,6 +3,7 @@
 UNITS = {
     'SESSION': dict(template='session.rs', rlimit=40),
     'LINKFLOW': dict(template='linkflow.rs', rlimit=30),
+    'FRAMEENC': dict(template='frameenc.rs', rlimit=60),
 }
 
 COMMON_TRUSTED = [
@@ -21,6 +22,20 @@ PROPS = {
             'session::consecutive_chunk_indices enters with an assumed contract (iterator adapters are outside the Verus subset)',
             'in unit SESSION a link is a ghost call log whose echo answer is the contract of LinkRelay::on_incoming_disposition (sender && !settled && rcv-settle-mode second)',
             'DeliveryFut::poll (Pin/poll) and interleaving of dispositions with further sends are not decided']),
+    'C06': dict(
+        units=['FRAMEENC'], kani=[], level='proof', title='Frames on the wire',
+        lemmas={'FRAMEENC': ['lemma_expected_properties', 'lemma_cut_points', 'lemma_mids_payload', 'lemma_mids_sizes', 'lemma_flatten_append', 'lemma_payloads_append']},
+        assumptions=[
+            'precondition fits(): the transfer performative alone (in each of its three forms) is smaller than the frame body; a larger one is outside the contract (usize underflow / no progress)',
+            'enc(t) is the uninterpreted output of the derive-generated serializer; axiom |enc(t[more:=false])| <= |enc(t[more:=true])|',
+            'Transport::start_send (Pin/Sink) cutting the buffer every max_frame_length bytes is covered only by lemma_cut_points (cut points == frame boundaries); the Sink glue itself is not under contract',
+            'non-transfer performatives larger than the frame are cut into pseudo-frames by start_send: see known finding / DESIGN D9 (not decided by a contract here)',
+            'decoding under arbitrary read fragmentation is tokio_util LengthDelimitedCodec + FramedRead (third party), not verified']),
+    'C01': dict(
+        units=['FRAMEENC', 'SESSION'], kani=[], level='proof', title='End-to-end delivery (sequential stages only)',
+        assumptions=[ASYNC, ENGINE,
+            'only the sequential stages are under contract: session hold-back/stamping (SESSION) and frame splitting (FRAMEENC); link-level split, reassembly and the codec round trip are separate units where built',
+            'mpsc hand-offs, engine select! loops, credit/window liveness under scheduling, and all configurations x schedules are NOT decided']),
     'C08': dict(
         units=['LINKFLOW'], kani=[], level='proof', title='Sender link credit',
         lemmas={'LINKFLOW': ['lemma_c08_consume_preserves_limit', 'lemma_c08_flow_establishes_limit']},
@@ -37,7 +52,7 @@ PROPS = {
             'ReceiverLink::on_complete_transfer calling consume(1) before building the delivery, ReceiverInner::update_credit_if_auto and set_credit are not under contract yet',
             'the overrun error being turned into a detach frame by the link/engine is not verified']),
     'C11': dict(
-        units=['SESSION'], kani=[], level='proof', title='Identifiers',
+        units=['SESSION', 'FRAMEENC'], kani=[], level='proof', title='Identifiers',
         assumptions=[ASYNC, ENGINE,
             'fewer than 2^32 link handles are live in one session (handle = slab key as u32)',
             'slab::Slab is modelled as a partial map whose vacant key is unoccupied (trusted stand-in)',
